@@ -34,7 +34,9 @@ PanicEscapes(cfg) ==
 
 \* ---- state: cfg + requests -------------------------------------------------------------------
 \* outer: the scope the incoming request context already carries (an application-level scope), if any
-MInit(cfg) == [cfg |-> cfg, reqs |-> <<>>, outer |-> IF "outer" \in DOMAIN cfg /\ cfg.outer THEN "app" ELSE NONE]
+MInit(cfg) == [cfg |-> cfg, reqs |-> <<>>, outer |-> IF "outer" \in DOMAIN cfg /\ cfg.outer THEN "app" ELSE NONE,
+               closeerrs |-> 0]        \* calls of the configured close-error handler so far
+CloseFails(cfg) == "closefail" \in DOMAIN cfg /\ cfg.closefail    \* the scoped instance's Close returns an error
 ReqIds(ms) == DOMAIN ms.reqs
 OwnerOfScope(ms, sid) == {r \in ReqIds(ms) : ms.reqs[r].scope = sid}
 
@@ -55,12 +57,16 @@ MApply(ms, e) ==
         [ms EXCEPT !.reqs = [r \in ReqIds(ms) |-> IF ms.reqs[r].scope = e.scope THEN [ms.reqs[r] EXCEPT !.closed = @ + 1] ELSE ms.reqs[r]]]
     ELSE IF e.ev = "probe_close" THEN
         [ms EXCEPT !.reqs = [r \in ReqIds(ms) |-> IF ms.reqs[r].probe = e.probe THEN [ms.reqs[r] EXCEPT !.probeClosed = @ + 1] ELSE ms.reqs[r]]]
+    ELSE IF e.ev = "closeerrh" THEN [ms EXCEPT !.closeerrs = @ + 1]
     ELSE IF e.ev = "done" /\ e.rq \in ReqIds(ms) THEN
         [ms EXCEPT !.reqs = [@ EXCEPT ![e.rq] = [@ EXCEPT !.done = TRUE]]]
     ELSE ms
 
 \* ---- guards ------------------------------------------------------------------------------------
 MG(name, ok) == [name |-> name, tags |-> {"C16"}, ok |-> ok, kf |-> NONE]
+\* behaviour the specification describes but no listed property states: evaluated on the reference (design model)
+\* and counted on traces, never a violation of a property (the tag set is empty)
+MGI(name, ok) == [name |-> name, tags |-> {}, ok |-> ok, kf |-> NONE]
 
 \* what every callback of a request must see: the request's one scope, nobody else's, still open
 SeesOwnScope(ms, e) ==
@@ -109,6 +115,13 @@ MGuards(ms, e) ==
          MG("scope_closed_exactly_once", rq.scope # NONE => rq.closed = 1),
          MG("scoped_instance_closed_exactly_once", rq.probe # 0 => rq.probeClosed = 1),
          MG("panic_swallowed_iff_recovery", e.panicked = PanicEscapes(cfg))}
+    ELSE IF e.ev = "closeerrh" THEN
+        \* the handler is told about a failed close of a request scope: only when one failed, at most once per scope
+        {MGI("close_error_handler_only_for_failed_close",
+            CloseFails(cfg) /\ ms.closeerrs < Cardinality({r \in ReqIds(ms) : ms.reqs[r].probe # 0 /\ ms.reqs[r].closed >= 1}))}
+    ELSE IF e.ev = "end" THEN
+        {MGI("close_error_handler_ran_for_every_failed_close",
+            ms.closeerrs = IF CloseFails(cfg) THEN Cardinality({r \in ReqIds(ms) : ms.reqs[r].probe # 0}) ELSE 0)}
     ELSE IF e.ev \in {"mismatch", "harness_error"} THEN {MG("consistent_scope_views", FALSE)}
     ELSE {}
 =============================================================================
